@@ -261,6 +261,9 @@ func TestVerif_C03(t *testing.T) {
 			cfgNodes = append(cfgNodes, config.Node{Name: "destination", Args: []string{fmt.Sprintf("r%d.example", d)}, Children: ch})
 			routeTerms = append(routeTerms, fmt.Sprintf("(%s, %s)", cN(d), cList(tt)))
 		}
+		// LMTP, a recipient with two targets of which exactly one fails at the body stage: its reply must
+		// not be a success, whichever target the pipeline visits first
+		biasTwo := lmtp && len(routes[1]) == 2 && r.chance(60)
 		cfgNodes = append(cfgNodes,
 			config.Node{Name: "default_destination", Children: []config.Node{{Name: "reject", Args: []string{"550", "5.1.1"}}}},
 			config.Node{Name: "check", Children: []config.Node{{Name: "&v3chk"}}})
@@ -292,6 +295,13 @@ func TestVerif_C03(t *testing.T) {
 				}
 			}
 			p.partial = r.chance(40)
+			if biasTwo {
+				// one of the two targets of recipient 1 refuses the body, the other one is fine
+				*p = v3Plan{rcpt: map[int]bool{}, partial: r.chance(30)}
+				if x == routes[1][1] {
+					p.body = true
+				}
+			}
 			w.plans[x] = p
 			var rl []string
 			for k := range p.rcpt {
@@ -532,6 +542,13 @@ func TestVerif_C03(t *testing.T) {
 				ended = true
 				sessionEnd()
 			case "DROP":
+				if fromOK && len(accepted) > 0 && r.chance(60) {
+					// the connection is lost in the middle of the content: the transaction never ended
+					if code, err := cl.cmd("DATA"); err == nil && code == 354 {
+						cl.c.Write([]byte("From: <a@example.org>\r\nSubject: cut off\r\n\r\nfirst line of a body that never en"))
+						stats["drop-in-data"]++
+					}
+				}
 				cl.c.Close()
 				cmds = append(cmds, "CDrop")
 				replies = append(replies, "RNone")
